@@ -7,7 +7,78 @@ from common import w_str
 
 
 def counter(impl):
-    return impl.Node._Node__ID_COUNTER.value
+    """The identity issued last in this process.  Read from the shared counter
+    when there is one; an allocator whose state cannot be read is asked for an
+    identity instead (see probe_cost)."""
+    c = getattr(impl.Node, '_Node__ID_COUNTER', None)
+    if hasattr(c, 'value'):
+        return c.value
+    return impl.Node('').id
+
+
+def probe_cost(impl):
+    """Identities consumed by one call of counter()."""
+    return 0 if hasattr(getattr(impl.Node, '_Node__ID_COUNTER', None), 'value') else 1
+
+
+def _burn_and_build(args):
+    """Runs in a pool worker: allocates `burn` identities (what a worker does for
+    every rejected candidate), then builds a tree and sends it back."""
+    import impl
+    burn, shape = args
+    for _ in range(burn):
+        impl.Node('burnt')
+    return impl.from_shape(shape)
+
+
+def cross_process_probe(impl, rng, rounds, redup=True):
+    """Identities across a fork-based pool: trees built in workers come back to
+    the main process, which then (a) allocates identities itself and (b)
+    re-duplicates a list holding the worker-made tree followed by a widely
+    shared subtree.  Returns (cases, problems); a problem is a dict with a
+    concrete input."""
+    import multiprocessing
+    problems = []
+    cases = 0
+    with multiprocessing.get_context('fork').Pool(2) as pool:
+        for r in range(rounds):
+            burns = [rng.choice([0, 3, 17, 40, 90, 150]) for _ in range(4)]
+            shapes = [gen_small_shape(rng, 3) or ('a', 'b') for _ in burns]
+            shapes = [s if not isinstance(s, str) else (s, 'k') for s in shapes]
+            made = pool.map(_burn_and_build, list(zip(burns, shapes)), chunksize=1)
+            wid = [[n.id for n in impl.nodes.dfs(t)] for t in made]
+            flat = [i for ids in wid for i in ids]
+            cases += 1
+            if len(set(flat)) != len(flat):
+                problems.append(dict(op='worker-ids', input=dict(burn=burns, shapes=shapes), observed=f'identities of trees built in pool workers repeat: {wid}',
+                                     expected='every construction, in whichever process, gets its own identity'))
+                continue
+            if not redup:
+                later = [impl.Node('m').id for _ in range(400)]
+                both = sorted(set(later) & set(flat))[:5]
+                if both:
+                    problems.append(dict(op='main-ids-after-worker', input=dict(burn=burns, shapes=shapes),
+                                         observed=f'the main process handed out identities {both} that nodes built in a worker already carry '
+                                         f'(worker-made identities {wid})', expected='fresh identities are new in every process of the pool'))
+                continue
+            width = rng.choice([60, 200, 320])
+            s = impl.Node('h', 'a', '1')
+            lst = list(made) + [impl.Node('g', *([s] * width))]
+            res = impl.nodes.reduplicate(lst)
+            rid = [n.id for n in impl.nodes.dfs(res)]
+            dup = sorted({i for i in rid if rid.count(i) > 1})[:5] if len(set(rid)) != len(rid) else []
+            if dup or ' '.join(map(str, res)) != ' '.join(map(str, lst)):
+                problems.append(dict(op='reduplicate-after-worker', input=dict(burn=burns, shapes=shapes, shared_width=width),
+                                     observed=f'after reduplicate in the main process the identities {dup} occur at two positions '
+                                     f'(worker-made identities {wid})', expected='pairwise distinct identities, same text'))
+                continue
+            later = [impl.Node('m').id for _ in range(200)]
+            both = sorted(set(later) & set(flat))[:5]
+            if both:
+                problems.append(dict(op='main-ids-after-worker', input=dict(burn=burns, shapes=shapes),
+                                     observed=f'the main process handed out identities {both} that nodes built in a worker already carry',
+                                     expected='fresh identities are new in every process of the pool'))
+    return cases, problems
 
 
 def w_node(n):
